@@ -1,7 +1,7 @@
 """C16 Matrix file readers  —  structural rules (index base, buffers, formats, extents), R4, R9 + twins.  Most of the property is not decidable statically."""
 from ..facts import Program
 from ..run import Check, AnalysisBroken
-from ..rules import readers, r9_sibling
+from ..rules import readers, r9_sibling, extent
 from . import c19
 
 
@@ -22,9 +22,12 @@ def run(tier):
         'stored as value - 1 (ReadVector); coordinate readers decrement each scanned index array exactly once, only when the file is not '
         'zero-based; fgets sizes and %Nc widths fit the local buffers and constant terminator stores are in range; every scanf conversion '
         'matches the pointee type of its argument (so %lf / %f cannot be swapped between precisions); arrays filled side by side by one scanf '
-        'have equal allocated extents. R4: every temporary released, FormFullA releases what it replaces. R9: s=d, c=z readers agree; the '
+        'have equal allocated extents; ?readMM lets through exactly the arithmetic keyword of its own data type; every access to the line buffer '
+        'inside the per-field loop of ReadVector / ?ReadValues depends on the field counter; the arrays that receive the symmetric expansion '
+        'are sized 2*nnz minus a counted number of stored diagonal entries (or 2*nnz), never a closed form; raw allocations are sized with an '
+        'element at least as large as the pointee. R4: every temporary released, FormFullA releases what it replaces. R9: s=d, c=z readers agree; the '
         'HB and RB copies of the parsing helpers and FormFullA agree (twins). Not decided (most of the property): that values and pattern '
-        'equal the file contents, field slicing within a line, the size of the symmetric expansion (2*nnz - n assumes a full diagonal).')
+        'equal the file contents, field slicing within a line.')
     cfgs = ['tested'] if tier == 'quick' else ['tested', 'idx64']
     chk.configs = cfgs
     for cfgname in cfgs:
@@ -32,6 +35,10 @@ def run(tier):
         n = readers.run(chk, 'C16', prog, cfgname)
         if n < 17:
             raise AnalysisBroken('C16: %d reader units found, floor 17' % n)
+        readers.mm_header_rule(chk, 'C16.mmhdr', prog, cfgname)
+        readers.field_slice_rule(chk, 'C16.slice', prog, cfgname)
+        readers.expansion_capacity_rule(chk, 'C16.symcap', prog, cfgname)
+        extent.elem_size_rule(chk, 'C16.elem', prog, {u.rel for u in prog.units if readers.READER_UNITS_PAT.search(u.rel)}, cfgname, floor=20)
         chk.floor('C16.base', 16 * (cfgs.index(cfgname) + 1))
         chk.floor('C16.buf', 60 * (cfgs.index(cfgname) + 1))
         fnames = {f.name for f in prog.all_funcs() if readers.READER_UNITS_PAT.search(f.unit)}
